@@ -347,7 +347,9 @@ fn bounded_search_over_builder_call_sequences() {
     for i in 0..n {
         let mut counter = 0u32;
         let (bp, want) = search::generate(&mut rng, 0, &mut counter);
-        let mut got = read_back(&bp, "search");
+        // always the same path, never removed in between: a smaller blueprint is persisted over a larger one
+        let mut got = { let p = std::env::temp_dir().join(format!("verif-c19-{}-search-over.ron", std::process::id())); bp.persist(&p).unwrap();
+            let f = std::fs::File::open(&p).unwrap(); let v: s::Blueprint = ron::de::from_reader(&f).unwrap_or_else(|e| panic!("call sequence #{i}: the compiler cannot read the persisted blueprint back: {e}")); v };
         search::norm(&mut got);
         components += counter as usize;
         nested += want.components.iter().filter(|c| matches!(c, s::Component::NestedBlueprint(_))).count();
